@@ -4,6 +4,7 @@ import (
 	"bytes"
 	"context"
 	"fmt"
+	"github.com/bytedance/gopkg/cloud/metainfo"
 	"runtime/debug"
 	"sort"
 	"strings"
@@ -170,7 +171,17 @@ func checkTTHRoundTrip(c TTHCase, cv *cov) (v *evid.Violation) {
 	if !ref.SupportedProto(c.Proto) {
 		return nil // outside the property's domain ("supported protocol id")
 	}
+	// the context argument carries nothing the encoder or decoder may use: with values of the request-metadata
+	// package in it (also under the names of the acl token) every frame must come out the same
 	ctx := context.Background()
+	switch (int(c.Seq) + c.Payload + len(c.Int)) % 3 {
+	case 1:
+		ctx = metainfo.WithValue(metainfo.WithPersistentValue(ctx, "gdpr-token", "from-context"), "gdpr-token", "transient-from-context")
+		ctx = metainfo.WithPersistentValue(ctx, "k", "ctx-v")
+	case 2:
+		type ctxKey string
+		ctx = context.WithValue(context.WithValue(ctx, ctxKey("gdpr-token"), "x"), ref.ACLTokenKey, "y") //nolint
+	}
 	var stream []byte
 	type frameInfo struct {
 		off, hlen int
@@ -747,6 +758,24 @@ func checkTTHDecode(c TTHFrameCase, cv *cov) *evid.Violation {
 	declared := 0
 	if rf.MetaOK {
 		declared = rf.HeaderLen - 14
+	}
+	// the exported magic predicates look at bytes 4..7 only: any prefix of at least 8 bytes must give the
+	// same answer, and that answer is "bytes 4 and 5 are 0x10 0x00" (and, for IsStreaming, flag bit 1)
+	if len(in) >= 8 {
+		wantMagic := in[4] == 0x10 && in[5] == 0x00
+		wantStreaming := wantMagic && in[7]&0x02 != 0
+		for _, k := range []int{8, 9, 13, 14, len(in)} {
+			if k > len(in) {
+				continue
+			}
+			var gotM, gotS bool
+			if p, st := evid.Safe(func() { gotM, gotS = ttheader.IsTTHeader(in[:k:k]), ttheader.IsStreaming(in[:k:k]) }); p != nil {
+				return &evid.Violation{Msg: fmt.Sprintf("IsTTHeader/IsStreaming panicked on a %d-byte prefix: %v", k, p), Stack: st}
+			}
+			if gotM != wantMagic || gotS != wantStreaming {
+				return evid.Failf("IsTTHeader/IsStreaming on the first %d bytes %s = %v/%v, the magic bytes say %v/%v", k, hx(in[:k]), gotM, gotS, wantMagic, wantStreaming)
+			}
+		}
 	}
 	arena := guard.Get(len(in))
 	defer guard.Put(arena)
